@@ -160,6 +160,12 @@ func PDFSameBaseFont() []byte {
 }
 
 // PDFStream: same logical document as a.pdf with xref stream, object streams and Flate.
+// PDFHex: the content streams are ASCIIHex-encoded (a filter whose decoder works on the encoded bytes directly),
+// two content streams per page.
+func PDFHex() []byte {
+	return pdfw.Write(PDFDoc(), pdfw.Layout{Filter: "AHx", Split: 2}).Bytes
+}
+
 func PDFStream() []byte {
 	return pdfw.Write(PDFDoc(), pdfw.Layout{XRef: "stream", ObjStm: "all", Filter: "Fl"}).Bytes
 }
@@ -239,7 +245,7 @@ func Named() []struct {
 		Name string
 		Data []byte
 	}{
-		{"a.pdf", PDF()}, {"pending.pdf", PDFPending()}, {"broken.pdf", PDFBroken()}, {"stream.pdf", PDFStream()}, {"ties.pdf", PDFTies()}, {"widths.pdf", PDFWidths()}, {"forms.pdf", PDFForms()}, {"badkid.pdf", PDFBadKid()}, {"hf.pdf", PDFHeaderFooter()}, {"samebase.pdf", PDFSameBaseFont()},
+		{"a.pdf", PDF()}, {"pending.pdf", PDFPending()}, {"broken.pdf", PDFBroken()}, {"stream.pdf", PDFStream()}, {"ties.pdf", PDFTies()}, {"widths.pdf", PDFWidths()}, {"forms.pdf", PDFForms()}, {"badkid.pdf", PDFBadKid()}, {"hf.pdf", PDFHeaderFooter()}, {"samebase.pdf", PDFSameBaseFont()}, {"hex.pdf", PDFHex()},
 		{"a.docx", DOCX()}, {"a.odt", ODT()}, {"a.xlsx", XLSX()}, {"a.pptx", PPTX()}, {"a.epub", EPUB3()}, {"b.epub", EPUB2()}, {"a.html", HTML()},
 	}
 }
